@@ -117,6 +117,8 @@ func cmdCheck(args []string) int {
 	seed, _ := strconv.Atoi(os.Getenv("VERIF_SEED"))
 	t0 := time.Now()
 	quick := *tier == "quick"
+	coverReturns = !quick || os.Getenv("GOVC_COVER_RETURNS") != ""
+	deadReturns := 0
 	timeout := 10
 	if !quick {
 		timeout = 60
@@ -247,6 +249,15 @@ func cmdCheck(args []string) int {
 			}
 			fe.Obligations++
 			solverTime += o.TimeS
+			if o.Kind == "cover-return" {
+				st := o.Status
+				if st == "vacuous" {
+					st = "dead-return: unreachable in the model, obligations about this return hold vacuously"
+					deadReturns++
+				}
+				ev.Vacuity = append(ev.Vacuity, VacuityEvidence{o.Name, st})
+				continue
+			}
 			if o.Kind == "cover" {
 				ev.Vacuity = append(ev.Vacuity, VacuityEvidence{o.Name, o.Status})
 				if o.Status == "vacuous" {
@@ -362,6 +373,9 @@ func cmdCheck(args []string) int {
 		// proved queries were deleted already; failing ones are kept for the replay files
 	}
 	ev.finish(t0, len(violations))
+	if coverReturns {
+		fmt.Printf("%s: %d return(s) unreachable in the model (listed under vacuity in the evidence; diagnostic, not an alarm)\n", prop, deadReturns)
+	}
 	fmt.Printf("%s: %d functions, %d obligations, %d discharged, %d violations, load %.1fs gen %.1fs solve %.1fs\n",
 		prop, len(results), ev.Coverage.Obligations, ev.Coverage.Discharged, len(violations), eng.loadTime.Seconds(), genT.Seconds()-eng.loadTime.Seconds(), solveT.Seconds())
 	if len(violations) > 0 {
